@@ -155,7 +155,7 @@ fn model_step(
     let mut r: Vec<Res> = pre.to_vec();
     let mut out = ModelOut::default();
     let runs_maintenance = match (kind, op) {
-        (Kind::Unsync, Op::Get { .. } | Op::Insert { .. } | Op::Contains { .. } | Op::Invalidate { .. }) => true,
+        (Kind::Unsync, Op::Get { .. } | Op::Insert { .. } | Op::Contains { .. } | Op::Invalidate { .. } | Op::InvalidateIf { .. }) => true,
         (Kind::Unsync, _) => false,
         // sync, exact mode: every op except a clock advance is followed by sync()
         (Kind::Sync, Op::Advance { .. }) => false,
@@ -258,6 +258,7 @@ pub struct Driver {
     invalidations: u64,
     /// pending (un-synced) inserts of new keys since the last quiescent point: weight sum
     pending_new_weight: u64,
+    ws_at_quiescence: u64,
     /// keys that were re-inserted after having been invalidated
     reinserted: HashSet<u32>,
     last_sync_quiescent: bool,
@@ -287,6 +288,7 @@ impl Driver {
             allowed_excess: 0,
             invalidations: 0,
             pending_new_weight: 0,
+            ws_at_quiescence: 0,
             reinserted: HashSet::new(),
             last_sync_quiescent: true,
         }
@@ -668,10 +670,9 @@ impl Driver {
         if post_quiescent {
             self.check_quiescent(&op, &pre, &post, now_after, !is_sync || synced);
             self.pending_new_weight = 0;
-        } else if let Op::Insert { k, w, .. } = op {
-            if pre.entry(k).is_none() {
-                self.pending_new_weight += self.eff_weight(w) as u64;
-            }
+            self.ws_at_quiescence = post.weighted_size.max(post.held_weight());
+        } else if let Op::Insert { w, .. } = op {
+            self.pending_new_weight += self.eff_weight(w) as u64;
         }
         self.last_sync_quiescent = post_quiescent;
         self.op_index += 1;
@@ -1014,9 +1015,12 @@ impl Driver {
                 continue;
             }
             // held before with an older value also counts: the key itself vanished
+            // Upper bound of what the counters can reach while the queued ops are applied: the
+            // total at the last quiescent point plus every insert queued since (queued removals
+            // may be applied later than the inserts, so they do not count).
             let pressure = match cap {
                 None => false,
-                Some(c) => pre.held_weight() + self.pending_new_weight + match op {
+                Some(c) => self.ws_at_quiescence + self.pending_new_weight + match op {
                     Op::Insert { w, .. } => self.eff_weight(*w) as u64,
                     _ => 0,
                 } > c,
@@ -1030,12 +1034,12 @@ impl Driver {
                     &props,
                     format!("loss:no-capacity-pressure:{}", op.kind_name()),
                     format!(
-                        "key {} (value {}) was held before {} and is gone afterwards at t={}, although it is live and the weight held ({}) plus pending inserts ({}) never exceeded the capacity {:?}",
+                        "key {} (value {}) was held before {} and is gone afterwards at t={}, although it is live and the weight counted at the last quiescent point ({}) plus all inserts queued since ({}) cannot exceed the capacity {:?}",
                         e.key,
                         l.vid,
                         op.to_line(),
                         now,
-                        pre.held_weight(),
+                        self.ws_at_quiescence,
                         self.pending_new_weight,
                         cap
                     ),
@@ -1108,6 +1112,24 @@ impl Driver {
                             "held:stale-value-after-maintenance",
                             format!("after {}: key {} is held with value {} but the latest insert wrote {:?}", op.to_line(), e.key, e.vid, self.truth.cur(e.key).map(|l| l.vid)),
                         );
+                    } else if fs3_blocked(post, e, is_sync && self.cfg.ttl.is_none()) {
+                        self.violate(
+                            &["C10", "C11"],
+                            "F-S3b:invalidated-entry-held:behind-entry-with-last_modified<valid_after<=last_accessed-in-access-order:no-ttl",
+                            format!(
+                                "after {} at t={}: key {} (value {}) was invalidated by invalidate_all but is still held and counted after maintenance: the access-order scan stopped at an entry in front of it whose last_accessed >= valid_after {:?} > last_modified; no time_to_live",
+                                op.to_line(), now, e.key, e.vid, post.valid_after
+                            ),
+                        );
+                    } else if is_sync && self.cfg.ttl.is_none() && self.fs3_blocker_evicted(pre, post) {
+                        self.violate(
+                            &["C10", "C11"],
+                            "F-S3c:invalidated-entry-held:purge-scan-stopped-at-entry-with-last_modified<valid_after<=last_accessed-that-the-size-eviction-of-the-same-run-removed:no-ttl",
+                            format!(
+                                "after {} at t={}: key {} (value {}) was invalidated by invalidate_all but is still held and counted after this maintenance run: the access-order scan stopped at an invalidated entry that had been read at or after valid_after {:?}, which the size eviction of the same run then removed; no time_to_live",
+                                op.to_line(), now, e.key, e.vid, post.valid_after
+                            ),
+                        );
                     } else if fs3 {
                         self.violate(
                             &["C10", "C11"],
@@ -1154,7 +1176,7 @@ impl Driver {
                             None => 0,
                         }
                     }
-                    Op::Iter | Op::InvalidateAll | Op::InvalidateIf { .. } | Op::Advance { .. } | Op::Sync => self.allowed_excess,
+                    Op::Iter | Op::InvalidateAll | Op::Advance { .. } | Op::Sync => self.allowed_excess,
                     _ => 0,
                 }
             };
@@ -1221,6 +1243,24 @@ impl Driver {
         }
     }
 
+    /// Was an entry that satisfies the F-S3 predicate per the harness' own log (invalidated by
+    /// the watermark, but read at or after it) held before this op and removed during it?
+    fn fs3_blocker_evicted(&self, pre: &Snap, post: &Snap) -> bool {
+        let va = match post.valid_after {
+            Some(v) => v,
+            None => return false,
+        };
+        pre.entries.iter().any(|p| {
+            post.entry(p.key).map(|q| q.vid != p.vid).unwrap_or(true)
+                && self
+                    .truth
+                    .key(p.key)
+                    .and_then(|t| t.last_dead)
+                    .map(|l| l.vid == p.vid && l.t_mod < va && l.a_hi >= va)
+                    .unwrap_or(false)
+        })
+    }
+
     // ---- end of history ------------------------------------------------------------------------
 
     /// Drops the cache (possibly with operations still queued) and checks that everything
@@ -1274,6 +1314,38 @@ impl Driver {
         }
         (self.result, self.known_hits)
     }
+}
+
+/// Is the (dead) entry `e` behind a node, in access order, whose entry was invalidated by the
+/// watermark (last_modified < valid_after) but has last_accessed >= valid_after? The purge scan
+/// stops at such a node.
+fn fs3_blocked(post: &Snap, e: &crate::cut::ESnap, applicable: bool) -> bool {
+    if !applicable {
+        return false;
+    }
+    let va = match post.valid_after {
+        Some(v) => v,
+        None => return false,
+    };
+    let my_addr = match e.ao {
+        Some((a, _)) => a,
+        None => return false,
+    };
+    for n in &post.probation {
+        if n.addr == my_addr {
+            return false;
+        }
+        if let Some(b) = post.entry(n.key) {
+            if b.ao.map(|x| x.0) == Some(n.addr) {
+                if let (Some(lm), Some(la)) = (b.lm, b.la) {
+                    if lm < va && la >= va {
+                        return true;
+                    }
+                }
+            }
+        }
+    }
+    false
 }
 
 /// Structural invariants at a quiescent point. Returns (short code, description).
